@@ -1,0 +1,36 @@
+//go:build verif
+
+package dkv
+
+import (
+	"reduction.dev/reduction/dkv/bg"
+	"reduction.dev/reduction/dkv/sst"
+)
+
+// Verification-build seams. All nil by default, which is shipped behaviour.
+var (
+	// VerifTuneOptions may shrink memtable / WAL / table sizes so that flushes
+	// and compactions happen at simulation scale under an Operator.
+	VerifTuneOptions func(*DBOptions)
+	// VerifTuneCompactor may override the compactor thresholds that New hard-codes.
+	VerifTuneCompactor func(*sst.Compactor)
+)
+
+// VerifResetQueues re-creates the package-level background queues so that each
+// simulated run owns channels created inside its own synctest bubble.
+func VerifResetQueues() {
+	flushMemTablesQueue = bg.NewQueue(5)
+	compactionQueue = bg.NewQueue(5)
+}
+
+func verifTuneOptions(o *DBOptions) {
+	if VerifTuneOptions != nil {
+		VerifTuneOptions(o)
+	}
+}
+
+func verifTuneCompactor(c *sst.Compactor) {
+	if VerifTuneCompactor != nil {
+		VerifTuneCompactor(c)
+	}
+}
